@@ -313,7 +313,7 @@ func TestC01Retransmit(t *testing.T) {
 		if rapid.IntRange(0, 3).Draw(rt, "startAtWrap") == 0 && cfg.AtLeastOnceMax > 1 && cfg.ExactlyOnceMax > 1 {
 			h = newWrapH(rt, "C01", cfg, []byte{1, 2})
 		} else {
-			h = newH(rt, "C01", sim.Options{Config: cfg})
+			h = newH(rt, "C01", asVolatileSession(rt, sim.Options{Config: cfg}))
 		}
 		h.Act("config AtLeastOnceMax=%d ExactlyOnceMax=%d", cfg.AtLeastOnceMax, cfg.ExactlyOnceMax)
 		var fc faultCounters
@@ -330,6 +330,14 @@ func TestC01Retransmit(t *testing.T) {
 		actions["pub2"] = func(rt *rapid.T) { h.pub(2, rapid.Bool().Draw(rt, "retain")) }
 		actions["pub1b"] = actions["pub1"]
 		actions["pub2b"] = actions["pub2"]
+		// traffic in the other direction shares the read routine's buffers
+		actions["brokerSend"] = func(rt *rapid.T) {
+			c := h.Current()
+			if c == nil || !c.Accepted() || c.Blackholed() {
+				rt.Skip("no accepted connection")
+			}
+			h.brokerSend(byte(rapid.IntRange(0, 2).Draw(rt, "inboundLevel")), rapid.IntRange(0, 40).Draw(rt, "inboundLen"))
+		}
 		actions[""] = func(rt *rapid.T) {
 			noPanics(h)
 			h.checkWire()
